@@ -452,6 +452,37 @@ def check_cooperative_gp(h: Harness):
                         f"{desc}: a generation of species {species} (configured with {n} individuals) received {got}, was asked for {asked} and produced {made}", replay)
 
 
+def check_time_budgets(h: Harness):
+    """a time budget decides WHEN the search stops, not how large its generations are: every generation of a run that a TimeBudget
+    (alone or inside AnyOf) ends -- the last one included -- has the configured population size.  The clock is the evaluation
+    counter (a tracker whose get_elapsed_time() returns the number of evaluations), so that the budget expires in the middle of a
+    generation deterministically."""
+    from geneticengine.evaluation.budget import AnyOf, EvaluationBudget, TimeBudget
+    rng = h.rng
+
+    class EvalClock(SingleObjectiveProgressTracker):
+        def get_elapsed_time(self) -> float:
+            return float(self.get_number_evaluations())
+
+    for n, limit, wrap in [(6, 15, False), (10, 25, False), (7, 10, True), (5, 12, True), (8, 8, False), (9, 31, True)]:
+        g, r, rep = sc.tree_setup(rng.randrange(1000))
+        problem = SingleObjectiveProblem(lambda p: float(sc.count_nodes(p)))
+        rec = sc.GenRecorder(limit=2000)
+        tracker = EvalClock(problem, SequentialEvaluator(), recorders=[rec])
+        budget = AnyOf(EvaluationBudget(10 * limit), TimeBudget(limit)) if wrap else TimeBudget(limit)
+        desc = f"GeneticProgramming(population_size={n}, budget={'AnyOf(EvaluationBudget, ' if wrap else ''}TimeBudget({limit}){')' if wrap else ''}) on the evaluation clock"
+        try:
+            GeneticProgramming(problem=problem, budget=budget, representation=rep, random=r, tracker=tracker, population_size=n).search()
+            counts = [len(x) for x in rec.generations()]
+        except Exception as e:  # noqa: BLE001
+            h.fail("GeneticProgramming.search", "raises", f"{desc}: {type(e).__name__}: {e}"[:300], {"n": n, "limit": limit})
+            continue
+        h.count("time-budget-runs")
+        h.seen(f"time-budget:{n}:{limit}:{wrap}", nontrivial=len(counts) >= 2)
+        h.holds("GeneticProgramming.search", "generation-size", ["prop_gen_counts", n, counts],
+                f"{desc}: individuals per generation {counts}", {"n": n, "limit": limit, "anyof": wrap})
+
+
 def check_initialisers(h: Harness):
     for setup, tag in ((sc.tree_setup(h.seed), ""), (sc.tree_setup_tight(h.seed), ":limit=minimum=2"), (sc.tree_setup_tight(h.seed, sc.Top3), ":limit=minimum=3")):
         check_initialisers_on(h, setup, tag)
@@ -636,5 +667,6 @@ def run(h: Harness):
     check_initialisers(h)
     check_population_sizes(h)
     check_cooperative_gp(h)
+    check_time_budgets(h)
     check_gp_stub(h)
     check_gp_tree(h)
